@@ -262,7 +262,8 @@ instance (source : Bytes) (env : TEnv) (t : Template) :
   unfold SingleLineCaptures; infer_instance
 
 /-- **The scanner keeps the literal text.** The fragments of `create_template`, with the
-spellings (`$NAME`, `$$NAME`, `$$$NAME`, names over `[A-Z0-9_]`) of the recognised variables
+spellings (`$NAME`, `$$NAME`, `$$$NAME`, names over `[A-Z0-9_]` that do not start with a digit
+unless they are a transformation key — `isRecognisedName`) of the recognised variables
 put back between them, are exactly the template: literal text is neither lost, added nor
 reordered, and `vars` lists exactly the variables these spellings denote
 (`mkVar`: `$$$NAME` multi capture; otherwise the transformation `NAME` if it is a key, else
@@ -270,7 +271,8 @@ the single capture). There is one more fragment than variables. -/
 theorem createTemplate_fragments (mc : UInt8) (tr : List Bytes) (tmpl : Bytes) :
     ∃ sps : List (Nat × Bytes),
       (createTemplate tmpl mc tr).vars.map (·.1) = sps.map (fun p => mkVar tr p.1 p.2) ∧
-      (∀ p ∈ sps, 1 ≤ p.1 ∧ p.1 ≤ 3 ∧ p.2 ≠ [] ∧ p.2.all isValidMetaVarByte = true) ∧
+      (∀ p ∈ sps, 1 ≤ p.1 ∧ p.1 ≤ 3 ∧ p.2 ≠ [] ∧ p.2.all isValidMetaVarByte = true ∧
+            isRecognisedName tr p.2 = true) ∧
       tmpl = interleave (createTemplate tmpl mc tr).fragments (sps.map fun p => spelling mc p.1 p.2) ∧
       (createTemplate tmpl mc tr).fragments.length = (createTemplate tmpl mc tr).vars.length + 1 := by
   obtain ⟨sps, h1, h2, h3⟩ := scan_fragments mc tr tmpl.length tmpl (Nat.le_refl _) [] []
@@ -323,6 +325,7 @@ theorem capture_reindented (source : Bytes) (m : Nat) (env : TEnv) (tr : List By
     (pre : Bytes) (k : Nat) (hk : 1 ≤ k ∧ k ≤ 3) (name post : Bytes)
     (hpre : (0x24 : UInt8) ∉ pre) (hpost : (0x24 : UInt8) ∉ post) (hne : name ≠ [])
     (hall : name.all isValidMetaVarByte = true)
+    (hrec : isRecognisedName tr name = true)
     (hhead : ∀ b, post.head? = some b → isValidMetaVarByte b = false)
     (r : Nat × Nat) (hr : varRange env (mkVar tr k name) = some r)
     (hmulti : NL ∈ slice source r)
@@ -341,7 +344,7 @@ theorem capture_reindented (source : Bytes) (m : Nat) (env : TEnv) (tr : List By
       rw [ht]; simpa [joinNL] using hnl (firstLine (slice source r)) (by simp)
     exact this hmulti
   simp only [← indentAt_spec] at hw ⊢
-  rw [templateFix_one_var source m env tr pre k hk name post hpre hpost hne hall hhead,
+  rw [templateFix_one_var source m env tr pre k hk name post hpre hpost hne hall hrec hhead,
     maybeGetVar_multiline source env _ _ r hr _ _ ht hls hnl hw]
   simp only [Option.getD_some, shiftNL_append]
   have hnl' : ∀ l ∈ firstLine (slice source r) ::
@@ -362,12 +365,14 @@ theorem capture_reindented (source : Bytes) (m : Nat) (env : TEnv) (tr : List By
   rw [hfun]
 
 /-- **Rewriting a node to itself is a no-op.** Template `$NAME` (also `$$NAME`, `$$$NAME`)
-with the variable bound to the range of the matched node itself: the replacement is exactly
+with `NAME` a variable name (not digit-first: `isRecognisedName [] name`) bound to the range of
+the matched node itself: the replacement is exactly
 the node's text — for every indentation of the match site, for single-line nodes
 unconditionally, for multi-line nodes under `WellIndented` (the property's own restriction;
 no condition on the first line since repair e39e245). -/
 theorem rewrite_to_self_noop (source : Bytes) (env : TEnv) (k : Nat) (hk : 1 ≤ k ∧ k ≤ 3)
     (name : Bytes) (hne : name ≠ []) (hall : name.all isValidMetaVarByte = true)
+    (hrec : isRecognisedName [] name = true)
     (r : Nat × Nat) (hr : varRange env (mkVar [] k name) = some r)
     (hw : WellIndented (indentAt (source.take r.1)) (slice source r)) :
     templateFix source r.1 env (List.replicate k 0x24 ++ name) [] = slice source r := by
@@ -376,7 +381,7 @@ theorem rewrite_to_self_noop (source : Bytes) (env : TEnv) (k : Nat) (hk : 1 ≤
   have h0 : indentAt [] = 0 := by decide
   by_cases hmulti : NL ∈ slice source r
   · rw [hshape, capture_reindented source r.1 env [] [] k hk name [] (by simp) (by simp) hne hall
-      (by simp) r hr hmulti hw]
+      hrec (by simp) r hr hmulti hw]
     obtain ⟨ht, hnl⟩ := text_as_lines (slice source r)
     simp only [shiftNL_nil, List.nil_append, List.append_nil, h0, Nat.zero_add]
     conv => rhs; rw [ht]
@@ -385,7 +390,7 @@ theorem rewrite_to_self_noop (source : Bytes) (env : TEnv) (k : Nat) (hk : 1 ≤
     · simp
     · intro l hl; exact reindent_self _ _ (hw l hl)
   · rw [hshape, templateFix_one_var source r.1 env [] [] k hk name [] (by simp) (by simp) hne hall
-      (by simp)]
+      hrec (by simp)]
     have hcap : capturedText source env (mkVar [] k name) = some (slice source r) := by
       unfold mkVar at hr ⊢
       by_cases h3 : k = 3
@@ -403,7 +408,7 @@ theorem rewrite_to_self_noop_A (source : Bytes) (env : TEnv) (s e : Nat)
     (hA : lookupB [0x41] env.single = some (s, e))
     (hw : WellIndented (indentAt (source.take s)) (slice source (s, e))) :
     templateFix source s env [0x24, 0x41] [] = slice source (s, e) :=
-  rewrite_to_self_noop source env 1 (by omega) [0x41] (by simp) (by decide) (s, e)
+  rewrite_to_self_noop source env 1 (by omega) [0x41] (by simp) (by decide) (by decide) (s, e)
     (by simpa [mkVar, varRange] using hA) hw
 
 /-- non-vacuity: source `"  f(\n    a\n  )"`, the call (bytes 2..15) at indentation 2 satisfies
